@@ -382,6 +382,26 @@ class C05(Prop):
             cls.FORMS = uniq
         return cls.FORMS
 
+    @staticmethod
+    def dynamic_attr_cases():
+        """dotted reads through a registry module of the initial namespace whose attribute is served dynamically
+        (module-level `__getattr__`, PEP 562: `getattr` finds it, `vars(module)` does not), at module level, inside a
+        function called at the end, below a loaded sub-package, and next to a plain member"""
+        N = lambda s: ["name", s]
+        A = lambda e, a: ["attr", e, a]
+        pa = N("pa")
+        progs = [
+            ([["expr", A(pa, "d1")]], []),
+            ([["assign", [N("x")], A(A(pa, "d2"), "u")]], []),
+            ([["expr", ["call", A(pa, "d1"), [A(pa, "m1")]]]], []),
+            ([["expr", A(A(pa, "s1"), "d1")], ["expr", A(A(pa, "s1"), "m2")]], []),
+            ([["funcDef", "f", {"args": [], "defaults": []}, [["return", ["tuple", [A(pa, "d2"), A(A(pa, "s1"), "d2")]]]], [], None]],
+             [["expr", ["call", N("f"), []]]]),
+            ([["importFrom", "pa", [["d1", "x"]]], ["expr", ["binop", N("x"), A(pa, "d1")]]], []),
+        ]
+        for body, calls in progs:
+            yield dict(prog=dict(body=body, calls=calls), ns=[{"pa": ["mod", "pa"]}], loaded=["pa", "pa.s1"], ext=False)
+
     def exhaustive_cases(self, tier, rng):
         import itertools
         F = self.forms()
@@ -392,7 +412,7 @@ class C05(Prop):
         else:
             combos = [(i,) for i in range(len(F))] + rng.sample(combos[len(F):], 260) + \
                      [tuple(rng.randrange(len(F)) for _ in range(3)) for _ in range(120)]
-        out = []
+        out = list(self.dynamic_attr_cases())
         for c in combos:
             body = [F[i] for i in c]
             prog = {"body": body, "calls": g.call_stmts(body)}
